@@ -3,7 +3,7 @@
 import sys, os, time
 sys.path.insert(0, os.path.dirname(os.path.dirname(os.path.abspath(__file__))))
 import importlib
-for m in ("utils", "sptensor", "tensor", "ktensor", "mats", "gcp", "misc"):
+for m in ("utils", "sptensor", "gcp", "mats", "ktensor", "tensor", "misc"):
     try:
         importlib.import_module("contracts." + m)
     except ModuleNotFoundError as e:
